@@ -261,6 +261,7 @@ func faultMatrix(meta *common.Meta, tier string, outDir string) int {
 		{name: "bad-go-version", cliArgs: []string{"-go=1.x"}, anArgs: []string{"-go=1.x"}, keywords: []string{"1.x", "version"}, parseOK: true, goOK: false, nonEmpty: true, loadOK: true},
 		{name: "empty-selection", cliArgs: []string{"-enable=nosuchchecker"}, anArgs: []string{"-enable=nosuchchecker"}, keywords: []string{"empty"}, parseOK: true, goOK: true, nonEmpty: false, loadOK: true},
 		{name: "unknown-failOn", cliArgs: []string{"-enable=ruleguard", "-@ruleguard.rules=" + rules, "-@ruleguard.failOn=bogus"}, anArgs: []string{"-enable=ruleguard", "-disable=", "-@ruleguard.rules=" + rules, "-@ruleguard.failOn=bogus"}, keywords: []string{"bogus", "failOn"}, parseOK: true, goOK: true, nonEmpty: true, ctorErr: true, loadOK: true},
+		{name: "unknown-failOn+legacy-failOnError", cliArgs: []string{"-enable=ruleguard", "-@ruleguard.rules=" + rules, "-@ruleguard.failOn=bogus", "-@ruleguard.failOnError"}, anArgs: []string{"-enable=ruleguard", "-disable=", "-@ruleguard.rules=" + rules, "-@ruleguard.failOn=bogus", "-@ruleguard.failOnError"}, keywords: []string{"bogus", "failOn"}, parseOK: true, goOK: true, nonEmpty: true, ctorErr: true, loadOK: true},
 		{name: "rules-no-match", cliArgs: []string{"-enable=ruleguard,captLocal", "-@ruleguard.rules=/nonexistent-verif/r-*.go"}, anArgs: []string{"-enable=ruleguard,captLocal", "-disable=", "-@ruleguard.rules=/nonexistent-verif/r-*.go"}, keywords: []string{"no file matching"}, parseOK: true, goOK: true, nonEmpty: true, ctorErr: true, loadOK: true},
 		{name: "unparsable-param", cliArgs: []string{"-@hugeParam.sizeThreshold=x"}, anArgs: []string{"-@hugeParam.sizeThreshold=x"}, keywords: []string{"invalid value", "sizeThreshold"}, parseOK: false, goOK: true, nonEmpty: true, loadOK: true},
 		{name: "bad-go-version+empty-selection", cliArgs: []string{"-go=abc", "-enable=nosuchchecker"}, anArgs: nil, keywords: []string{"abc", "version"}, parseOK: true, goOK: false, nonEmpty: false, loadOK: true},
